@@ -1,6 +1,7 @@
 import Bardic.Extracted.UndoCap
 import Bardic.Extracted.EntryPoints
 import Bardic.Extracted.ErrorSites
+import Bardic.Extracted.TokenKinds
 import Bardic.Engine.Api
 /-!
 # Theorems over tables re-extracted from /repo's source on every run
@@ -19,6 +20,21 @@ theorem entryPoints_resolve_includes :
       !e.2.contains "compile_string" && !e.2.contains "parse" &&
       (e.2.contains "compile_file" || e.2.contains "parse_file" || e.2.contains "create_browser_bundle")) = true ∧
     Extracted.entryPoints.length = 4 := by decide
+
+/-- the documented token kinds (C12) -/
+def documentedKinds : List String :=
+  ["text", "expression", "inline_conditional", "render_directive", "input", "python_statement", "python_block",
+   "hook", "conditional", "for_loop", "jump", "join_marker"]
+
+/-- **token kinds, re-established on every run**: every kind the parser can emit is documented and has
+a branch in the engine's renderer; and every emitted kind that can carry choices or jumps (it has
+`content` / `branches` / `choices` keys, or is a jump) has a branch in the story-graph walker — so
+`renderToks_sub` covers everything the compiler can produce -/
+theorem tokenKinds_covered :
+    Extracted.emittedKinds.all (fun k => documentedKinds.contains k.1 && Extracted.engineKinds.contains k.1) = true ∧
+    Extracted.emittedKinds.all (fun k =>
+      !(k.2.contains "content" || k.2.contains "branches" || k.2.contains "choices" || k.1 == "jump")
+        || Extracted.graphKinds.contains k.1) = true := by decide
 
 /-- the index expressions a diagnostic site may report: the 0-based index of the offending line in
 the combined text (`format_error` adds 1 and maps it through the line map, see `display_origin`) -/
